@@ -98,6 +98,13 @@ fn usage_model(t: &[usize]) -> Model {
     m.schedules.week.push(ScheduleWeek { id: uid("w2"), name: "w2".into(), values: subset(["d1", "d2"], t[9]), ..Default::default() });
     m.schedules.day.push(ScheduleDay { id: uid("d1"), name: "d1".into(), values: vec![1.0; 24], ..Default::default() });
     m.schedules.day.push(ScheduleDay { id: uid("d2"), name: "d2".into(), values: vec![0.0; 24], ..Default::default() });
+    // ids are unique within a list, not across lists: a never-used weekly schedule carrying the id of the yearly schedule
+    // y1 (with a daily schedule of its own), and a never-used yearly schedule carrying the id of the weekly schedule w1
+    // (with a weekly schedule of its own): all four go, whatever is in use
+    m.schedules.week.push(ScheduleWeek { id: uid("y1"), name: "wx".into(), values: vec![(uid("dx"), 7)], ..Default::default() });
+    m.schedules.day.push(ScheduleDay { id: uid("dx"), name: "dx".into(), values: vec![0.5; 24], ..Default::default() });
+    m.schedules.year.push(Schedule { id: uid("w1"), name: "yx".into(), values: vec![(uid("wy"), 365)], ..Default::default() });
+    m.schedules.week.push(ScheduleWeek { id: uid("wy"), name: "wy".into(), values: vec![(uid("d1"), 7)], ..Default::default() });
     m
 }
 
@@ -395,7 +402,7 @@ pub fn run(ctx: &Ctx) -> i32 {
     }
     ctx.finish(
         "model_checking",
-        &format!("usage chain full product ({} models): 0..2 walls x (space{{s1,s2}} x next_to{{None,s2}}; the first wall with an adjacent space is INTERIOR, the second ADIABATIC) x 2 spaces x (loads{{-,l1,l2}} x thermostat{{-,t1}}) + one never-referenced space x 2 loads x (people{{-,y1,y2}} x equipment{{-,y2}}) x thermostat temp_max{{-,y1,y2}} x yearly schedules x weeks subsets (incl. entries listed with 0 repetitions) x weekly x days subsets (idem); construction chain full product ({} models): 0..2 walls x cons{{c1,c2,absent}} x layers subsets x 0..2 windows x cons{{k1,k2,absent}} x (glass{{g1,g2,absent}} x frame{{f1,f2,absent}})^2 x bridge lengths{{0,-0,1e-9,0.005,1,-1}}; oracle: independent reachability => exact survivor list in original order per collection, idempotence (byte-identical JSON), no new checker warning, and (every 211th / 53rd model + 7 shipped models as shipped and with unused items inserted) a_ref, volumes, K, n50, q_soljul, compactness unchanged", n1, n2),
+        &format!("usage chain full product ({} models): 0..2 walls x (space{{s1,s2}} x next_to{{None,s2}}; the first wall with an adjacent space is INTERIOR, the second ADIABATIC) x 2 spaces x (loads{{-,l1,l2}} x thermostat{{-,t1}}) + one never-referenced space x 2 loads x (people{{-,y1,y2}} x equipment{{-,y2}}) x thermostat temp_max{{-,y1,y2}} x yearly schedules (+ a never-used weekly schedule with the id of a yearly one and a never-used yearly schedule with the id of a weekly one) x weeks subsets (incl. entries listed with 0 repetitions) x weekly x days subsets (idem); construction chain full product ({} models): 0..2 walls x cons{{c1,c2,absent}} x layers subsets x 0..2 windows x cons{{k1,k2,absent}} x (glass{{g1,g2,absent}} x frame{{f1,f2,absent}})^2 x bridge lengths{{0,-0,1e-9,0.005,1,-1}}; oracle: independent reachability => exact survivor list in original order per collection, idempotence (byte-identical JSON), no new checker warning, and (every 211th / 53rd model + 7 shipped models as shipped and with unused items inserted) a_ref, volumes, K, n50, q_soljul, compactness unchanged", n1, n2),
         true,
         json!({"usage_space": n1, "cons_space": n2}),
     )
